@@ -108,7 +108,20 @@ class SimFile:
         return self._closed
 
 
-class FakeDatetime(_dt.datetime):
+class _FakeDatetimeMeta(type):
+    # modules that say `isinstance(x, datetime)` / `issubclass(t, datetime)` must keep accepting ordinary date-times
+    def __instancecheck__(cls, obj):
+        return isinstance(obj, _dt.datetime)
+
+    def __subclasscheck__(cls, sub):
+        return issubclass(sub, _dt.datetime)
+
+
+class FakeDatetime(_dt.datetime, metaclass=_FakeDatetimeMeta):
+    def __new__(cls, *a, **k):
+        # whatever the library constructs through the class (strptime, fromisoformat, datetime(...)) is an ordinary date-time
+        return _dt.datetime(*a, **k)
+
     _now = None
     _reads = 0
 
@@ -213,6 +226,14 @@ class World:
                 self.seams['clock'] = False
         except Exception:
             self.seams['clock'] = False
+        # ... and in every other module of the library that refers to the datetime class: nothing there may read the REAL clock
+        # (e.g. to learn the local zone's current offset), or a run would depend on the day it is made
+        for name, mod in list(sys.modules.items()):
+            if name.startswith('dliswriter') and mod is not None and getattr(mod, 'datetime', None) is _dt.datetime:
+                try:
+                    mod.datetime = FakeDatetime
+                except Exception:
+                    pass
         # lr-tap (soft seam, class-level wrapper)
         self.seams['lr_tap'] = False
         if self.env.get('lr_tap'):
@@ -473,6 +494,8 @@ class World:
             if inner.startswith(HARNESS) and not isinstance(e, (OSError, KeyboardInterrupt, _Propagated)):
                 r['harness_tb'] = ''.join(traceback.format_exception(type(e), e, e.__traceback__))[-1500:]
             r['where'] = '%s:%d' % (os.path.basename(inner), tb[-1].lineno) if tb else ''
+            if os.environ.get('VERIF_TB'):
+                r['tb'] = ['%s:%d %s' % (os.path.basename(f.filename), f.lineno, f.name) for f in tb][-8:]
             if isinstance(e, _Propagated):
                 r['exc'] = e.inner_name
                 r['propagated'] = True
@@ -531,9 +554,12 @@ class World:
             hh = zlib.crc32(str(op.get('h')).encode())
             if op.get('now'):
                 FakeDatetime._now = _dt.datetime.fromisoformat(op['now'])
+            elif op.get('clock_keep'):
+                pass
             else:
                 FakeDatetime._now = _dt.datetime(2021, 3, 4, 5, 6, 7, 89000) + _dt.timedelta(seconds=hh % 10 ** 7, microseconds=hh % 999983)
-            np.random.seed(op['rng_seed'] if op.get('rng_seed') is not None else hh)
+            if not op.get('rng_keep'):
+                np.random.seed(op['rng_seed'] if op.get('rng_seed') is not None else hh)
             reads0 = FakeDatetime._reads
         meth = getattr(lf, 'add_' + kind)
         if 'name' in op:
@@ -563,6 +589,25 @@ class World:
     def op_set_prop(self, op, r):
         obj = self.objs[op['h']]
         setattr(obj, op['prop'], self.codec.dec(op['v']))
+
+    # ---- the environment of the process, changed in mid-history (kept by every projection)
+    def op_set_tz(self, op, r):
+        os.environ['TZ'] = op['tz']
+        time.tzset()
+
+    def op_seed_rng(self, op, r):
+        """The caller seeds numpy's global random state; add ops marked 'rng_keep' then draw from it in call order."""
+        np.random.seed(int(op['seed']))
+
+    def op_set_clock(self, op, r):
+        FakeDatetime._now = _dt.datetime.fromisoformat(op['now'])
+
+    def op_set_log(self, op, r):
+        """Logging configuration chosen by the application: library logger at ERROR, everything disabled, or the default."""
+        lg = logging.getLogger('dliswriter')
+        mode = op.get('mode', 'default')
+        logging.disable(logging.CRITICAL if mode == 'disabled' else logging.NOTSET)
+        lg.setLevel(logging.ERROR if mode == 'error' else logging.INFO)
 
     def op_set_fh(self, op, r):
         """Change a public attribute of a logical file's header item (sequence number / id of the next file of a set)."""
@@ -771,6 +816,12 @@ class World:
             if ft['kind'] == 'h5_read':
                 undo = self._install_h5_fault(ft)
         target = path if op.get('path_kind') != 'Path' else __import__('pathlib').Path(path)
+        if op.get('path_kind') in ('relative', 'relative_Path'):
+            # the target named relative to the current working directory
+            os.chdir(os.path.dirname(path))
+            target = os.path.basename(path)
+            if op['path_kind'] == 'relative_Path':
+                target = __import__('pathlib').Path(target)
         self.events, self.snaps = [], []
         self.reported_size = None
         if self.seams.get('lr_tap'):
